@@ -345,14 +345,21 @@ Definition check_C12_inst (sc : scenario) (ins : list (N * input)) (sent : list 
             end
         | _ => []
         end) lt in
-      if existsb (fun f => match f with None => true | _ => false end) finds then [] else
-      let wins := flat_map (fun f => match f with Some w => [w] | None => [] end) finds in
       (* when another instance shares service and instance id, an answer is attributed by its versions as well *)
       let shared := existsb (fun jj => negb (fst jj =? i) && (s_sid (in_service (snd jj)) =? s_sid svc)
                                        && (s_iid (in_service (snd jj)) =? s_iid svc)) (sc_insts sc) in
       let answers := filter (fun x => is_offer_of svc (st_entry x)
                                       && (negb shared || ((e_maj (st_entry x) =? s_maj svc) && (e_val (st_entry x) =? s_min svc)))
                                       && match st_dest x with Some _ => true | None => false end) sent in
+      (* whatever is ambiguous about WHICH requests are answered: an answer leaves only while the instance is past its first
+         offer and not yet stopped (queued then; it may leave up to one collection timeout later) - never during the
+         initial wait of a (re)started instance, never from a stopped one *)
+      let ready_when (x : sent_t) :=
+        existsb (fun iv => (fst iv + d0 <=? st_time x)
+                           && match snd iv with Some te => st_time x <=? te + t_collect c | None => true end) ivs in
+      (if forallb ready_when answers then [] else [4]) ++
+      if existsb (fun f => match f with None => true | _ => false end) finds then [] else
+      let wins := flat_map (fun f => match f with Some w => [w] | None => [] end) finds in
       let in_window (x : sent_t) :=
         existsb (fun w => let '(a, lo, hi) := w in dest_eq (st_dest x) (Some a) && (lo <=? st_time x) && (st_time x <=? hi)) wins in
       let visible := filter (fun w => snd w <=? sc_end sc) wins in
